@@ -35,12 +35,21 @@ Proof. intros A n [|x l]; [cbn [tl]; now rewrite !skipn_nil|reflexivity]. Qed.
 
 (* ================================================================ the relation *)
 (* user names: not a register (#n) and not a loop register (L#n) *)
-Definition uname (x : str) : Prop :=
+Definition uname0 (x : str) : Prop :=
   src_name x /\ match x with 76%N :: 35%N :: _ => False | _ => True end.
+
+Section Names.
+(* the names of the module-level FUNCTIONS visible in the current activation: they are kept out of the data
+   relation (their cells hold closures / VFun values and are never assigned) *)
+Context {funs : list str}.
+
+Definition uname (x : str) : Prop := uname0 x /\ ~ In x funs.
 Lemma uname_src : forall x, uname x -> src_name x.
-Proof. intros x H. exact (proj1 H). Qed.
+Proof. intros x H. exact (proj1 (proj1 H)). Qed.
 Lemma uname_not_lregn : forall x n, uname x -> x <> lregn n.
-Proof. intros x n [_ H] E. subst x. exact H. Qed.
+Proof. intros x n [[_ H] _] E. subst x. exact H. Qed.
+Lemma uname_nfun : forall x, uname x -> ~ In x funs.
+Proof. intros x H. exact (proj2 H). Qed.
 
 Definition cellrel (st : list rvalue) (cs : list value) (c c' : N) : Prop :=
   exists v, nth_error st (N.to_nat c) = Some v /\ first_order v /\ nth_error cs (N.to_nat c') = Some (inj v).
@@ -296,51 +305,165 @@ Qed.
 Lemma lookup_tl_ne : forall l x, lookup_scopes x (tl l) <> None -> lookup_scopes x l <> None.
 Proof. intros [|sc l] x H; [exact H|]. cbn [tl lookup_scopes] in *. destruct (assoc x sc); [discriminate|exact H]. Qed.
 
-(* ================================================================ pinned VM cells *)
-(* a VM cell that belongs to no source variable and must keep its value (the end register of a `from` loop) *)
-Definition pin_ok_ (l : list scope) (fs : list frame) (cs : list value) (p : N * value) : Prop :=
-  nth_error cs (N.to_nat (fst p)) = Some (snd p) /\ forall c, ~ pairs l fs c (fst p).
+(* ================================================================ pinned cells *)
+(* cells outside the relation that must keep their value: on the VM side the end register of a `from` loop and,
+   across a call, every cell that existed before; on the source side every cell that existed before the call *)
+Record pinset := { vpin : N -> value -> Prop; spin : N -> rvalue -> Prop }.
+Definition no_pins : pinset := {| vpin := fun _ _ => False; spin := fun _ _ => False |}.
+Definition add_vpin (P : pinset) (c : N) (w : value) : pinset :=
+  {| vpin := fun cy w' => (cy = c /\ w' = w) \/ vpin P cy w'; spin := spin P |}.
 
-Lemma pins_update_ : forall pins l fs cs c c' w, Forall (pin_ok_ l fs cs) pins -> pairs l fs c c' ->
-  Forall (pin_ok_ l fs (set_nth (N.to_nat c') w cs)) pins.
+Definition pins_ok (P : pinset) (l : list scope) (fs : list frame) (st : list rvalue) (cs : list value) : Prop :=
+  (forall cy w, vpin P cy w -> nth_error cs (N.to_nat cy) = Some w /\ forall c, ~ pairs l fs c cy) /\
+  (forall c v, spin P c v -> nth_error st (N.to_nat c) = Some v /\ forall c', ~ pairs l fs c c').
+
+Lemma pins_update_ : forall P l fs st cs c c' v w, pins_ok P l fs st cs -> pairs l fs c c' ->
+  pins_ok P l fs (set_nth (N.to_nat c) v st) (set_nth (N.to_nat c') w cs).
 Proof.
-  intros pins l fs cs c c' w H Hp. eapply Forall_impl; [|exact H]. intros [cy w0] [H1 H2]; unfold pin_ok_; cbn [fst snd] in *. split; [|exact H2].
-  rewrite nth_error_set_nth_other; [exact H1|]. intros E. apply N2Nat.inj in E. subst cy. exact (H2 c Hp).
+  intros P l fs st cs c c' v w [H1 H2] Hp. split.
+  - intros cy w0 Hq. destruct (H1 cy w0 Hq) as [A B]. split; [|exact B].
+    rewrite nth_error_set_nth_other; [exact A|]. intros E. apply N2Nat.inj in E. subst cy. exact (B c Hp).
+  - intros c0 v0 Hq. destruct (H2 c0 v0 Hq) as [A B]. split; [|exact B].
+    rewrite nth_error_set_nth_other; [exact A|]. intros E. apply N2Nat.inj in E. subst c0. exact (B c' Hp).
 Qed.
 
-Lemma pins_mono_ : forall pins l fs cs extra, Forall (pin_ok_ l fs cs) pins -> Forall (pin_ok_ l fs (cs ++ extra)) pins.
+Lemma pins_mono_ : forall P l fs st cs x y, pins_ok P l fs st cs -> pins_ok P l fs (st ++ x) (cs ++ y).
 Proof.
-  intros pins l fs cs extra H. eapply Forall_impl; [|exact H]. intros [cy w0] [H1 H2]; unfold pin_ok_; cbn [fst snd] in *. split; [|exact H2].
-  rewrite nth_error_app1; [exact H1|]. apply nth_error_Some. congruence.
+  intros P l fs st cs x y [H1 H2]. split.
+  - intros cy w Hq. destruct (H1 cy w Hq) as [A B]. split; [|exact B].
+    rewrite nth_error_app1; [exact A|]. apply nth_error_Some. congruence.
+  - intros c0 v Hq. destruct (H2 c0 v Hq) as [A B]. split; [|exact B].
+    rewrite nth_error_app1; [exact A|]. apply nth_error_Some. congruence.
 Qed.
 
-Lemma pins_declare_ : forall pins sc l f fs cs x cn w, Forall (pin_ok_ (sc :: l) (f :: fs) cs) pins ->
-  Forall (pin_ok_ (assoc_set x cn sc :: l) ({| lab := lab f; vars := assoc_set x (N.of_nat (length cs)) (vars f) |} :: fs)
-                  (cs ++ [w])) pins.
+Lemma pins_declare_ : forall P sc l f fs st cs x v w, pins_ok P (sc :: l) (f :: fs) st cs ->
+  pins_ok P (assoc_set x (N.of_nat (length st)) sc :: l)
+            ({| lab := lab f; vars := assoc_set x (N.of_nat (length cs)) (vars f) |} :: fs)
+            (st ++ [v]) (cs ++ [w]).
 Proof.
-  intros pins sc l f fs cs x cn w H. eapply Forall_impl; [|exact H]. intros [cy w0] [H1 H2]; unfold pin_ok_; cbn [fst snd] in *. split.
-  - rewrite nth_error_app1; [exact H1|]. apply nth_error_Some. congruence.
-  - intros c0 Hp. apply pairs_declare in Hp. destruct Hp as [[_ E]|Hp]; [|exact (H2 c0 Hp)].
-    subst cy. rewrite Nnat.Nat2N.id in H1. assert (length cs < length cs) by (apply nth_error_Some; congruence). lia.
+  intros P sc l f fs st cs x v w [H1 H2]. split.
+  - intros cy w0 Hq. destruct (H1 cy w0 Hq) as [A B]. split.
+    + rewrite nth_error_app1; [exact A|]. apply nth_error_Some. congruence.
+    + intros c0 Hp. apply pairs_declare in Hp. destruct Hp as [[_ E]|Hp]; [|exact (B c0 Hp)].
+      subst cy. rewrite Nnat.Nat2N.id in A. assert (length cs < length cs) by (apply nth_error_Some; congruence). lia.
+  - intros c0 v0 Hq. destruct (H2 c0 v0 Hq) as [A B]. split.
+    + rewrite nth_error_app1; [exact A|]. apply nth_error_Some. congruence.
+    + intros c0' Hp. apply pairs_declare in Hp. destruct Hp as [[E _]|Hp]; [|exact (B c0' Hp)].
+      subst c0. rewrite Nnat.Nat2N.id in A. assert (length st < length st) by (apply nth_error_Some; congruence). lia.
 Qed.
 
-Lemma pins_push_ : forall pins l fs cs lb, Forall (pin_ok_ l fs cs) pins -> special lb = true ->
-  Forall (pin_ok_ ([] :: l) ({| lab := lb; vars := [] |} :: fs) cs) pins.
+Lemma pins_sub_ : forall P l fs l' fs' st cs, pins_ok P l fs st cs ->
+  (forall c c', pairs l' fs' c c' -> pairs l fs c c') -> pins_ok P l' fs' st cs.
 Proof.
-  intros pins l fs cs lb H Hs. eapply Forall_impl; [|exact H]. intros [cy w0] [H1 H2]. split; [exact H1|].
-  intros c0 Hp. apply pairs_push in Hp; [|exact Hs]. exact (H2 c0 Hp).
+  intros P l fs l' fs' st cs [H1 H2] Hs. split.
+  - intros cy w Hq. destruct (H1 cy w Hq) as [A B]. split; [exact A|]. intros c0 Hp. exact (B c0 (Hs _ _ Hp)).
+  - intros c0 v Hq. destruct (H2 c0 v Hq) as [A B]. split; [exact A|]. intros c0' Hp. exact (B c0' (Hs _ _ Hp)).
 Qed.
 
-Lemma pins_pop_ : forall pins sc l f fs cs, Forall (pin_ok_ (sc :: l) (f :: fs) cs) pins -> Forall (pin_ok_ l fs cs) pins.
-Proof.
-  intros pins sc l f fs cs H. eapply Forall_impl; [|exact H]. intros [cy w0] [H1 H2]. split; [exact H1|].
-  intros c0 Hp. apply (H2 c0). cbn [pairs]. right. exact Hp.
-Qed.
+Lemma pins_push_ : forall P l fs st cs lb, pins_ok P l fs st cs -> special lb = true ->
+  pins_ok P ([] :: l) ({| lab := lb; vars := [] |} :: fs) st cs.
+Proof. intros P l fs st cs lb H Hs. eapply pins_sub_; [exact H|]. intros c c' Hp. eapply pairs_push; eassumption. Qed.
 
-Lemma pins_top_ : forall pins l f f' fs cs, Forall (pin_ok_ l (f :: fs) cs) pins ->
+Lemma pins_pop_ : forall P sc l f fs st cs, pins_ok P (sc :: l) (f :: fs) st cs -> pins_ok P l fs st cs.
+Proof. intros P sc l f fs st cs H. eapply pins_sub_; [exact H|]. intros c c' Hp. cbn [pairs]. right. exact Hp. Qed.
+
+Lemma pins_top_ : forall P l f f' fs st cs, pins_ok P l (f :: fs) st cs ->
   (forall x, uname x -> find_in_function x (f' :: fs) = find_in_function x (f :: fs)) ->
-  Forall (pin_ok_ l (f' :: fs) cs) pins.
+  pins_ok P l (f' :: fs) st cs.
 Proof.
-  intros pins l f f' fs cs H Hfind. eapply Forall_impl; [|exact H]. intros [cy w0] [H1 H2]. split; [exact H1|].
-  intros c0 Hp. apply (H2 c0). eapply pairs_top; [|exact Hp]. intros x Hx. symmetry. now apply Hfind.
+  intros P l f f' fs st cs H Hfind. eapply pins_sub_; [exact H|]. intros c c' Hp.
+  eapply pairs_top; [|exact Hp]. intros x Hx. symmetry. now apply Hfind.
 Qed.
+
+Lemma pins_weaken_ : forall P c w l fs st cs, pins_ok (add_vpin P c w) l fs st cs -> pins_ok P l fs st cs.
+Proof.
+  intros P c w l fs st cs [H1 H2]. split; [|exact H2]. intros cy w0 Hq. apply H1. cbn [add_vpin vpin]. now right.
+Qed.
+
+Lemma lookup_app_some : forall x l r c, lookup_scopes x l = Some c -> lookup_scopes x (l ++ r) = Some c.
+Proof.
+  intros x. induction l as [|sc l IH]; intros r c H; [discriminate|]. cbn [app lookup_scopes] in *.
+  destruct (assoc x sc); [exact H|]. now apply IH.
+Qed.
+
+(* `ret` drops the block frames and the function frame: what remains are the frames below the activation *)
+Lemma Rfr_drop : forall st cs l fs, Rfr st cs l fs -> drop_to_function fs = skipn (length l) fs.
+Proof.
+  intros st cs. induction l as [|sc l IH]; intros [|f fs] H; cbn in H; try contradiction.
+  destruct H as [_ H]. destruct l as [|sc' l].
+  - cbn [drop_to_function length skipn]. now rewrite H.
+  - destruct H as [Hs H]. cbn [drop_to_function]. rewrite Hs. rewrite (IH fs H). reflexivity.
+Qed.
+
+(* ================================================================ function names: resolved the same way at every level *)
+(* the VM's `load f`: own frames, then the captured cells (a_cb) *)
+Definition lookup_fs (cb : option (list (str * N))) (fs : list frame) (f : str) : option N :=
+  match find_in_function f fs with
+  | Some c => Some c
+  | None => match cb with Some m => assoc f m | None => None end
+  end.
+
+Definition flook (cb : option (list (str * N))) (cap l : list scope) (fs : list frame) (f : str) (c c' : N) : Prop :=
+  forall k, k < length l -> lookup_scopes f (skipn k l ++ cap) = Some c /\ lookup_fs cb (skipn k fs) f = Some c'.
+
+Lemma flook_push : forall cb cap l fs f c c' lb, flook cb cap l fs f c c' -> l <> [] -> special lb = true ->
+  flook cb cap ([] :: l) ({| lab := lb; vars := [] |} :: fs) f c c'.
+Proof.
+  intros cb cap l fs f c c' lb H Hl Hs k Hk. destruct k as [|k].
+  - cbn [skipn app lookup_scopes assoc]. unfold lookup_fs. cbn [find_in_function vars lab assoc]. rewrite Hs.
+    destruct l as [|sc l]; [congruence|]. exact (H 0 ltac:(cbn; lia)).
+  - cbn [skipn]. apply H. cbn [length] in Hk. lia.
+Qed.
+Lemma flook_pop : forall cb cap sc l f0 fs f c c', flook cb cap (sc :: l) (f0 :: fs) f c c' -> flook cb cap l fs f c c'.
+Proof. intros cb cap sc l f0 fs f c c' H k Hk. apply (H (S k)). cbn [length]. lia. Qed.
+Lemma flook_top : forall cb cap sc sc' l f0 f0' fs f c c', flook cb cap (sc :: l) (f0 :: fs) f c c' ->
+  assoc f sc' = assoc f sc -> find_in_function f (f0' :: fs) = find_in_function f (f0 :: fs) ->
+  flook cb cap (sc' :: l) (f0' :: fs) f c c'.
+Proof.
+  intros cb cap sc sc' l f0 f0' fs f c c' H Ha Hf k Hk. destruct k as [|k].
+  - destruct (H 0 ltac:(cbn; lia)) as [H1 H2]. cbn [skipn app lookup_scopes] in *. unfold lookup_fs in *.
+    rewrite Ha, Hf. split; assumption.
+  - exact (H (S k) Hk).
+Qed.
+Lemma flook_skipn : forall cb cap m l fs f c c', flook cb cap l fs f c c' -> m < length l ->
+  flook cb cap (skipn m l) (skipn m fs) f c c'.
+Proof.
+  intros cb cap. induction m as [|m IH]; intros l fs f c c' H Hm; [exact H|].
+  destruct l as [|sc l]; [cbn in Hm; lia|]. destruct fs as [|f0 fs].
+  - intros k Hk. cbn [skipn]. rewrite skipn_nil. specialize (H (S m + k)). rewrite skipn_length in Hk. cbn [length] in *.
+    destruct (H ltac:(lia)) as [H1 H2]. rewrite skipn_nil in H2.
+    replace (skipn k (skipn m l)) with (skipn (S m + k) (sc :: l)); [split; assumption|].
+    cbn [Nat.add skipn]. clear. revert l. induction m as [|m IHm]; intros l; [reflexivity|].
+    destruct l; [now rewrite !skipn_nil|]. cbn [Nat.add skipn]. apply IHm.
+  - cbn [skipn]. apply IH; [eapply flook_pop; exact H|cbn [length] in Hm; lia].
+Qed.
+
+(* ---------------------------------------------------------------- the relation only looks at the VALUES of cells:
+   it survives anything that keeps the value of every existing cell (a call) *)
+Lemma Rfr_vals : forall st cs st' cs',
+  (forall c v, nth_error st c = Some v -> nth_error st' c = Some v) ->
+  (forall c w, nth_error cs c = Some w -> nth_error cs' c = Some w) ->
+  forall l fs, Rfr st cs l fs -> Rfr st' cs' l fs.
+Proof.
+  intros st cs st' cs' Hs Hc. induction l as [|sc l IH]; intros [|f fs] H; cbn in H; try contradiction.
+  destruct H as [Hl H]. cbn [Rfr]. split.
+  - intros z Hz. eapply orel_impl; [|exact (Hl z Hz)]. intros a b (v & A1 & A2 & A3). exists v. auto.
+  - destruct l as [|sc' l]; [exact H|]. destruct H as [Hsp H]. split; [exact Hsp|]. apply IH. exact H.
+Qed.
+Lemma pins_vals_ : forall P l fs st cs st' cs',
+  (forall c v, nth_error st c = Some v -> nth_error st' c = Some v) ->
+  (forall c w, nth_error cs c = Some w -> nth_error cs' c = Some w) ->
+  pins_ok P l fs st cs -> pins_ok P l fs st' cs'.
+Proof.
+  intros P l fs st cs st' cs' Hs Hc [H1 H2]. split.
+  - intros cy w Hq. destruct (H1 cy w Hq) as [A B]. split; [now apply Hc|exact B].
+  - intros c0 v Hq. destruct (H2 c0 v Hq) as [A B]. split; [now apply Hs|exact B].
+Qed.
+
+End Names.
+Arguments uname funs x : clear implicits.
+Arguments look funs st cs l fs : clear implicits.
+Arguments Rfr funs st cs l fs : clear implicits.
+Arguments pairs funs l fs c c' : clear implicits.
+Arguments bij funs l fs : clear implicits.
+Arguments pins_ok funs P l fs st cs : clear implicits.
